@@ -1189,3 +1189,464 @@ pub fn tamper_all(ctx: &Ctx, prefix: &str, tree: &Value, constant_trace: bool, v
     }
     (leaves.len(), lists.len())
 }
+
+// ---------------------------------------------------------------------------------------------
+// Single-table lookups (logUp): oracle and trace helper
+
+#[derive(Clone, Debug, PartialEq, Eq)]
+pub struct LookupFailure {
+    pub lookup: usize,
+    pub value: u64,
+    /// sum of the filter values of the looking cells holding `value` (mod p)
+    pub looking: u64,
+    /// sum of the frequency cells of the table rows holding `value` (mod p)
+    pub looked: u64,
+}
+
+fn filter_value(f: &Option<FilterSpec>, rows: &Rows, row: usize) -> u64 {
+    match f {
+        None => 1,
+        Some(f) => f.eval(rows, row),
+    }
+}
+
+/// Oracle for `Def::lookups`: the logUp identity
+/// `sum_{looking column i, row r} filter_i(r) / (X + f_i(r)) == sum_r freq(r) / (X + table(r))`
+/// holds as an identity of rational functions iff, for every value v, the filter weights of the
+/// looking cells equal to v sum to the frequencies of the table rows equal to v (mod p). For boolean
+/// filters and a table without repeated values this is "every filtered looking value occurs in the
+/// table and the frequency column holds the true counts". Plain BTreeMap counters.
+pub fn check_lookups(def: &Def, rows: &Rows) -> Vec<LookupFailure> {
+    use std::collections::BTreeMap;
+    let n = rows.len();
+    let mut out = Vec::new();
+    for (li, l) in def.lookups.iter().enumerate() {
+        let mut w: BTreeMap<u64, (u64, u64)> = BTreeMap::new();
+        for r in 0..n {
+            for (c, f) in l.columns.iter().zip(&l.filters) {
+                let e = w.entry(c.eval(rows, r)).or_insert((0, 0));
+                e.0 = addm(e.0, filter_value(f, rows, r));
+            }
+            let e = w.entry(l.table.eval(rows, r)).or_insert((0, 0));
+            e.1 = addm(e.1, l.freq.eval(rows, r));
+        }
+        for (v, (a, b)) in w {
+            if a != b {
+                out.push(LookupFailure { lookup: li, value: v, looking: a, looked: b });
+            }
+        }
+    }
+    out
+}
+
+/// Writes honest frequencies: for every lookup whose frequency column is a single plain column, the
+/// weight of each looked-up value goes to the first table row holding it, 0 elsewhere.
+pub fn fill_frequencies(def: &Def, rows: &mut Rows) {
+    use std::collections::BTreeMap;
+    let n = rows.len();
+    for l in &def.lookups {
+        assert!(l.freq.lin.len() == 1 && l.freq.lin[0].1 == 1 && l.freq.next.is_empty() && l.freq.konst == 0, "frequency column must be a plain column");
+        let fc = l.freq.lin[0].0;
+        let mut w: BTreeMap<u64, u64> = BTreeMap::new();
+        for r in 0..n {
+            for (c, f) in l.columns.iter().zip(&l.filters) {
+                let e = w.entry(c.eval(rows, r)).or_insert(0);
+                *e = addm(*e, filter_value(f, rows, r));
+            }
+        }
+        for r in 0..n {
+            rows[r][fc] = 0;
+        }
+        for r in 0..n {
+            let t = l.table.eval(rows, r);
+            if let Some(x) = w.remove(&t) {
+                rows[r][fc] = x;
+            }
+        }
+    }
+}
+
+// ---------------------------------------------------------------------------------------------
+// Cross-table lookups: a minimal multi-table driver (public starky API only) and its oracle.
+//
+// Flow (crate docs / the zk_evm consumer): commit every trace -> one challenger observes all trace
+// caps -> `get_ctl_data` draws the shared CTL challenges and builds the running sums ->
+// `prove_with_commitment` per table on the same challenger. Verifier: observe all trace caps, redraw
+// the CTL challenges, per table `CtlCheckVars::from_proof` + `get_challenges(ignore_trace_cap = true)`
+// + `verify_stark_proof_with_challenges`, finally `verify_cross_table_lookups` on the first-row
+// openings. `prove_with_commitment` documents that it does NOT observe the config while the
+// verifier-side `get_challenges` does, so the driver observes the config before each table's proof.
+
+/// One side of a cross-table lookup: table index, column combinations, filter (None = always on).
+#[derive(Clone, Debug)]
+pub struct TwcSpec {
+    pub table: usize,
+    pub columns: Vec<ColSpec>,
+    pub filter: Option<FilterSpec>,
+}
+
+#[derive(Clone, Debug)]
+pub struct CtlSpec {
+    pub looking: Vec<TwcSpec>,
+    pub looked: TwcSpec,
+    /// extra looking rows that belong to no table (`ctl_extra_looking_sums`)
+    pub extra: Vec<Vec<u64>>,
+}
+
+impl TwcSpec {
+    fn to_twc(&self) -> starky::cross_table_lookup::TableWithColumns<F> {
+        starky::cross_table_lookup::TableWithColumns::new(
+            self.table,
+            self.columns.iter().map(|c| c.to_column()).collect(),
+            self.filter.as_ref().map(|f| f.to_filter()).unwrap_or_default(),
+        )
+    }
+}
+
+fn to_ctls(ctls: &[CtlSpec]) -> Vec<starky::cross_table_lookup::CrossTableLookup<F>> {
+    ctls.iter()
+        .map(|c| starky::cross_table_lookup::CrossTableLookup::new(c.looking.iter().map(|t| t.to_twc()).collect(), c.looked.to_twc()))
+        .collect()
+}
+
+#[derive(Clone, Debug, PartialEq, Eq)]
+pub struct CtlFailure {
+    pub ctl: usize,
+    pub tuple: Vec<u64>,
+    pub looking: u64,
+    pub looked: u64,
+}
+
+/// Oracle: for each CTL, the multiset of filtered looking rows (all looking tables, plus the extra
+/// rows) equals the multiset of filtered looked rows; a filter value is the row's weight (mod p).
+pub fn check_ctls(tables: &[Rows], ctls: &[CtlSpec]) -> Vec<CtlFailure> {
+    use std::collections::BTreeMap;
+    let mut out = Vec::new();
+    for (ci, ctl) in ctls.iter().enumerate() {
+        let mut w: BTreeMap<Vec<u64>, (u64, u64)> = BTreeMap::new();
+        let mut add = |t: &TwcSpec, looked: bool, w: &mut BTreeMap<Vec<u64>, (u64, u64)>| {
+            let rows = &tables[t.table];
+            for r in 0..rows.len() {
+                let f = filter_value(&t.filter, rows, r);
+                if f == 0 {
+                    continue;
+                }
+                let tuple: Vec<u64> = t.columns.iter().map(|c| c.eval(rows, r)).collect();
+                let e = w.entry(tuple).or_insert((0, 0));
+                if looked {
+                    e.1 = addm(e.1, f);
+                } else {
+                    e.0 = addm(e.0, f);
+                }
+            }
+        };
+        for t in &ctl.looking {
+            add(t, false, &mut w);
+        }
+        add(&ctl.looked, true, &mut w);
+        for row in &ctl.extra {
+            let e = w.entry(row.iter().map(|x| x % P).collect()).or_insert((0, 0));
+            e.0 = addm(e.0, 1);
+        }
+        for (tuple, (a, b)) in w {
+            if a != b {
+                out.push(CtlFailure { ctl: ci, tuple, looking: a, looked: b });
+            }
+        }
+    }
+    out
+}
+
+fn ctl_extra_sums(ctls: &[CtlSpec], challenges: &starky::lookup::GrandProductChallengeSet<F>) -> hashbrown::HashMap<usize, Vec<F>> {
+    let mut m = hashbrown::HashMap::new();
+    for (i, c) in ctls.iter().enumerate() {
+        if c.extra.is_empty() {
+            continue;
+        }
+        let sums = challenges
+            .challenges
+            .iter()
+            .map(|ch| {
+                c.extra
+                    .iter()
+                    .map(|row| {
+                        let row = to_field(row);
+                        ch.combine::<F, F, _, 1>(row.iter()).inverse()
+                    })
+                    .sum::<F>()
+            })
+            .collect();
+        m.insert(i, sums);
+    }
+    m
+}
+
+fn ctl_prove_n<const N: usize>(defs: &[Def], tables: &[Rows], ctls: &[CtlSpec], cfg: &StarkConfig) -> anyhow::Result<Vec<Proof>> {
+    use plonky2::fri::oracle::PolynomialBatch;
+    use plonky2::iop::challenger::Challenger;
+    use plonky2::plonk::config::GenericConfig;
+    let degree = defs[0].degree;
+    let lib_ctls = to_ctls(ctls);
+    let mut timing = TimingTree::default();
+    let traces: [Vec<PolynomialValues<F>>; N] = core::array::from_fn(|i| to_poly_values(&tables[i], defs[i].cols));
+    let commitments: Vec<PolynomialBatch<F, C, D>> = traces
+        .iter()
+        .map(|t| PolynomialBatch::<F, C, D>::from_values(t.clone(), cfg.fri_config.rate_bits, false, cfg.fri_config.cap_height, &mut timing, None))
+        .collect();
+    let mut challenger = Challenger::<F, <C as GenericConfig<D>>::Hasher>::new();
+    for c in &commitments {
+        challenger.observe_cap(&c.merkle_tree.cap);
+    }
+    let (ctl_challenges, ctl_data) = starky::cross_table_lookup::get_ctl_data::<F, C, D, N>(cfg, &traces, &lib_ctls, &mut challenger, degree);
+    let mut proofs = Vec::new();
+    for i in 0..N {
+        cfg.observe(&mut challenger);
+        let def = &defs[i];
+        let p = with_model_stark!(
+            def,
+            S,
+            starky::prover::prove_with_commitment::<F, C, S, D>(
+                &S::new(def),
+                cfg,
+                &traces[i],
+                &commitments[i],
+                Some(&ctl_data[i]),
+                Some(&ctl_challenges),
+                &mut challenger,
+                &[],
+                None,
+                None,
+                &mut timing,
+            )
+        )?;
+        proofs.push(p);
+    }
+    Ok(proofs)
+}
+
+fn ctl_verify_n<const N: usize>(defs: &[Def], ctls: &[CtlSpec], cfg: &StarkConfig, proofs: &[Proof]) -> anyhow::Result<()> {
+    use plonky2::iop::challenger::Challenger;
+    use plonky2::plonk::config::GenericConfig;
+    use starky::cross_table_lookup::{verify_cross_table_lookups, CrossTableLookup, CtlCheckVars};
+    anyhow::ensure!(proofs.len() == N, "wrong number of table proofs");
+    let degree = defs[0].degree;
+    let lib_ctls = to_ctls(ctls);
+    let mut challenger = Challenger::<F, <C as GenericConfig<D>>::Hasher>::new();
+    for p in proofs {
+        challenger.observe_cap(&p.proof.trace_cap);
+    }
+    let ctl_challenges = starky::lookup::get_grand_product_challenge_set(&mut challenger, cfg.num_challenges);
+    for i in 0..N {
+        let def = &defs[i];
+        let (total_helpers, _num_zs, helpers_by_ctl) = CrossTableLookup::num_ctl_helpers_zs_all(&lib_ctls, i, cfg.num_challenges, degree);
+        with_model_stark!(def, S, {
+            let stark = S::new(def);
+            let num_lookup_columns = stark.num_lookup_helper_columns(cfg);
+            let ctl_vars = CtlCheckVars::from_proof::<C>(i, &proofs[i].proof, &lib_ctls, &ctl_challenges, num_lookup_columns, total_helpers, &helpers_by_ctl);
+            let challenges = proofs[i].get_challenges(&stark, &mut challenger, Some(&ctl_challenges), Some(&ctl_vars), true, cfg, None);
+            starky::verifier::verify_stark_proof_with_challenges::<F, C, S, D>(&stark, &proofs[i].proof, &challenges, Some(&ctl_vars), &proofs[i].public_inputs, cfg)
+        })?;
+    }
+    let mut firsts: Vec<Vec<F>> = Vec::new();
+    for p in proofs {
+        firsts.push(p.proof.openings.ctl_zs_first.clone().ok_or_else(|| anyhow::anyhow!("missing ctl_zs_first"))?);
+    }
+    let firsts: [Vec<F>; N] = core::array::from_fn(|i| firsts[i].clone());
+    verify_cross_table_lookups::<F, D, N>(&lib_ctls, firsts, &ctl_extra_sums(ctls, &ctl_challenges), cfg)
+}
+
+/// Preconditions of the driver: 1..=3 tables, all of the same declared degree (the CTL helper
+/// batching uses one `constraint_degree` for the whole system), `ctl == true`, no public inputs.
+pub fn ctl_system_ok(defs: &[Def]) -> bool {
+    (1..=3).contains(&defs.len()) && defs.iter().all(|d| d.ctl && d.pis == 0 && d.degree == defs[0].degree && d.degree >= 3)
+}
+
+/// Proves a multi-table system; one proof per table.
+pub fn ctl_prove(defs: &[Def], tables: &[Rows], ctls: &[CtlSpec], cfg: &StarkConfig, lenient: bool) -> Result<Vec<Proof>, String> {
+    assert!(ctl_system_ok(defs) && defs.len() == tables.len());
+    starky::verif_hooks::knobs::set_lenient_quotient(lenient);
+    plonky2_field::verif_hooks::set_seed(Some(0x5eed_c10));
+    let r = guarded(|| match defs.len() {
+        1 => ctl_prove_n::<1>(defs, tables, ctls, cfg),
+        2 => ctl_prove_n::<2>(defs, tables, ctls, cfg),
+        _ => ctl_prove_n::<3>(defs, tables, ctls, cfg),
+    });
+    plonky2_field::verif_hooks::set_seed(None);
+    starky::verif_hooks::knobs::set_lenient_quotient(false);
+    match r {
+        Ok(Ok(p)) => Ok(p),
+        Ok(Err(e)) => Err(format!("error: {e:#}")),
+        Err(p) => Err(format!("panic: {p}")),
+    }
+}
+
+/// Verifies a multi-table system.
+pub fn ctl_verify(defs: &[Def], ctls: &[CtlSpec], cfg: &StarkConfig, proofs: &[Proof]) -> Verdict {
+    let r = guarded(|| match defs.len() {
+        1 => ctl_verify_n::<1>(defs, ctls, cfg, proofs),
+        2 => ctl_verify_n::<2>(defs, ctls, cfg, proofs),
+        _ => ctl_verify_n::<3>(defs, ctls, cfg, proofs),
+    });
+    match r {
+        Ok(Ok(())) => Verdict::Accepted,
+        Ok(Err(e)) => Verdict::Rejected(format!("{e:#}")),
+        Err(p) => Verdict::Panicked(p),
+    }
+}
+
+// ---------------------------------------------------------------------------------------------
+// Lookup members of the family (single-table logUp lookups). Generators leave the frequency
+// columns at 0; `Member::trace` fills them with the true counts.
+
+impl Member {
+    /// Satisfying trace + public inputs (frequencies of declared lookups filled in).
+    pub fn trace(&self, n: usize, choice: usize) -> (Rows, Vec<u64>) {
+        let (mut rows, pis) = (self.gen)(n, choice);
+        if !self.def.lookups.is_empty() {
+            fill_frequencies(&self.def, &mut rows);
+        }
+        (rows, pis)
+    }
+}
+
+#[derive(Clone, Copy)]
+enum TableKind {
+    Counter,
+    Permuted,
+    Repeated,
+    High,
+}
+
+fn table_col(kind: TableKind, n: usize) -> Vec<u64> {
+    (0..n as u64)
+        .map(|r| match kind {
+            TableKind::Counter => r,
+            TableKind::Permuted => (5 * r + 3) % n as u64,
+            TableKind::Repeated => r / 2,
+            TableKind::High => P - 1 - r,
+        })
+        .collect()
+}
+
+/// Looking column j: values drawn from the table (with repetitions, leaving some table values unused).
+fn looking_col(table: &[u64], j: usize, ch: usize) -> Vec<u64> {
+    let n = table.len();
+    (0..n).map(|r| table[(r * r + 3 * j + ch) % n]).collect()
+}
+
+fn filter_col(n: usize, ch: usize) -> Vec<u64> {
+    (0..n).map(|r| ((r + ch) % 3 != 0) as u64).collect()
+}
+
+/// Rows whose filter is 0 get a value that is NOT in the table: they must be ignored.
+fn mask_absent(col: &mut [u64], filter: &[u64]) {
+    for (r, v) in col.iter_mut().enumerate() {
+        if filter[r] == 0 {
+            *v = 1_000_003 + r as u64;
+        }
+    }
+}
+
+fn gen_lk1_counter(n: usize, ch: usize) -> (Rows, Vec<u64>) {
+    let t = table_col(TableKind::Counter, n);
+    (from_cols(vec![looking_col(&t, 0, ch), t, vec![0; n]]), vec![])
+}
+fn gen_lk1_perm(n: usize, ch: usize) -> (Rows, Vec<u64>) {
+    let t = table_col(TableKind::Permuted, n);
+    (from_cols(vec![looking_col(&t, 0, ch), t, vec![0; n]]), vec![])
+}
+fn gen_lk1_dup(n: usize, ch: usize) -> (Rows, Vec<u64>) {
+    let t = table_col(TableKind::Repeated, n);
+    (from_cols(vec![looking_col(&t, 0, ch), t, vec![0; n]]), vec![])
+}
+fn gen_lk2(n: usize, ch: usize) -> (Rows, Vec<u64>) {
+    let t = table_col(TableKind::High, n);
+    (from_cols(vec![looking_col(&t, 0, ch), looking_col(&t, 1, ch), t, vec![0; n]]), vec![])
+}
+fn gen_lk3f(n: usize, ch: usize) -> (Rows, Vec<u64>) {
+    let t = table_col(TableKind::Permuted, n);
+    let f = filter_col(n, ch);
+    let mut l2 = looking_col(&t, 2, ch);
+    mask_absent(&mut l2, &f);
+    (from_cols(vec![looking_col(&t, 0, ch), looking_col(&t, 1, ch), l2, t, vec![0; n], f]), vec![])
+}
+fn gen_lk5(n: usize, ch: usize) -> (Rows, Vec<u64>) {
+    let t = table_col(TableKind::Counter, n);
+    let f = filter_col(n, ch);
+    let mut l0 = looking_col(&t, 0, ch);
+    let mut l4 = looking_col(&t, 4, ch);
+    mask_absent(&mut l0, &f);
+    mask_absent(&mut l4, &f);
+    (from_cols(vec![l0, looking_col(&t, 1, ch), looking_col(&t, 2, ch), looking_col(&t, 3, ch), l4, t, vec![0; n], f]), vec![])
+}
+fn gen_lk_lin(n: usize, ch: usize) -> (Rows, Vec<u64>) {
+    // looking value 2*a + 3 with a in 0..n; table 2*r + 3
+    let a: Vec<u64> = (0..n).map(|r| ((r * r + ch) % n) as u64).collect();
+    let t: Vec<u64> = (0..n as u64).map(|r| 2 * r + 3).collect();
+    (from_cols(vec![a, t, vec![0; n]]), vec![])
+}
+fn gen_lk_two(n: usize, ch: usize) -> (Rows, Vec<u64>) {
+    let t0 = table_col(TableKind::Counter, n);
+    let t1 = table_col(TableKind::High, n);
+    (from_cols(vec![looking_col(&t0, 0, ch), t0, vec![0; n], looking_col(&t1, 1, ch), t1, vec![0; n]]), vec![])
+}
+
+fn lookup_def(name: &str, cols: usize, degree: usize, lookups: Vec<LookupSpec>, terms: Vec<Term>) -> Def {
+    Def { name: name.to_string(), cols, pis: 0, degree, terms, lookups, ctl: false }
+}
+
+fn plain_lookup(looking: &[usize], table: usize, freq: usize) -> LookupSpec {
+    LookupSpec {
+        columns: looking.iter().map(|&c| ColSpec::single(c)).collect(),
+        table: ColSpec::single(table),
+        freq: ColSpec::single(freq),
+        filters: vec![None; looking.len()],
+    }
+}
+
+/// Model STARKs that declare single-table lookups. Looking columns 1, 2, 3, 5 (crossing the helper
+/// batch size `constraint_degree - 1` for degrees 2 and 3); column kinds single / linear combination
+/// with constant / next-row; filters none / single boolean column / product; tables counter /
+/// permuted range / repeated values / large values; two lookups in one STARK; lookups next to
+/// ordinary constraint terms.
+pub fn lookup_family() -> Vec<Member> {
+    use Atom::*;
+    use Kind::*;
+    let m = |def: Def, gen: Gen| Member { def, gen };
+    let mut v = Vec::new();
+    for d in [2usize, 3] {
+        v.push(m(lookup_def(&format!("lk1_counter_d{d}"), 3, d, vec![plain_lookup(&[0], 1, 2)], vec![]), gen_lk1_counter));
+        v.push(m(lookup_def(&format!("lk2_high_d{d}"), 4, d, vec![plain_lookup(&[0, 1], 2, 3)], vec![]), gen_lk2));
+        let mut l3 = plain_lookup(&[0, 1, 2], 3, 4);
+        l3.filters[2] = Some(FilterSpec::simple(5));
+        v.push(m(lookup_def(&format!("lk3_filter_d{d}"), 6, d, vec![l3], vec![]), gen_lk3f));
+        let mut l5 = plain_lookup(&[0, 1, 2, 3, 4], 5, 6);
+        l5.filters[0] = Some(FilterSpec::simple(7));
+        l5.filters[4] = Some(FilterSpec { products: vec![(ColSpec::single(7), ColSpec::single(7))], constants: vec![] });
+        v.push(m(lookup_def(&format!("lk5_prodfilter_d{d}"), 8, d, vec![l5], vec![]), gen_lk5));
+    }
+    v.push(m(lookup_def("lk1_perm_d2", 3, 2, vec![plain_lookup(&[0], 1, 2)], vec![]), gen_lk1_perm));
+    v.push(m(lookup_def("lk1_dup_d3", 3, 3, vec![plain_lookup(&[0], 1, 2)], vec![]), gen_lk1_dup));
+    let mut lin = plain_lookup(&[0], 1, 2);
+    lin.columns[0] = ColSpec::lin(&[(0, 2)], 3);
+    v.push(m(lookup_def("lk_lincomb_d3", 3, 3, vec![lin], vec![]), gen_lk_lin));
+    let mut nx = plain_lookup(&[0], 1, 2);
+    nx.columns[0] = ColSpec::single_next(0);
+    v.push(m(lookup_def("lk_nextrow_d2", 3, 2, vec![nx], vec![]), gen_lk1_perm));
+    let mut tn = plain_lookup(&[0], 1, 2);
+    tn.table = ColSpec::single_next(1);
+    v.push(m(lookup_def("lk_table_nextrow_d2", 3, 2, vec![tn], vec![]), gen_lk1_perm));
+    v.push(m(lookup_def("lk_two_d3", 6, 3, vec![plain_lookup(&[0], 1, 2), plain_lookup(&[3], 4, 5)], vec![]), gen_lk_two));
+    // the table column is additionally pinned to be the counter 0, 1, 2, ... by ordinary constraints
+    v.push(m(
+        lookup_def(
+            "lk1_pinned_table_d2",
+            3,
+            2,
+            vec![plain_lookup(&[0], 1, 2)],
+            vec![term(FirstRow, &[], Local(1)), term(Transition, &[&[Local(1)], &[Const(1)]], Next(1))],
+        ),
+        gen_lk1_counter,
+    ));
+    v
+}
